@@ -47,6 +47,9 @@ func check(c Case, ev *evid.Collector) *evid.Violation {
 	classes = append(classes, c.ClientClasses()...)
 	if mountPairing {
 		classes = append(classes, "mount-granted")
+		if c.SrcFeat.MountRefuseFirst > 0 {
+			classes = append(classes, "mount-first-requests-declined")
+		}
 	}
 	for _, l := range g.Labels {
 		classes = append(classes, "graph:"+l)
@@ -71,6 +74,7 @@ func check(c Case, ev *evid.Collector) *evid.Violation {
 	uploadBytes := map[string]int{} // session id -> body bytes received
 	sessDigest := map[string]string{}
 	mounted := map[string]bool{}
+	declined := map[string]bool{} // blob digest -> a cross-repository mount request for it was declined by the registry
 	manifestPuts := 0
 	mutating := 0
 	var sample []string
@@ -102,6 +106,12 @@ func check(c Case, ev *evid.Collector) *evid.Violation {
 			q, _ := url.ParseQuery(x.RawQuery)
 			if q.Get("from") != "" {
 				mounted[q.Get("mount")] = true
+			}
+		case x.Class == "upload-mount" && isTgt(x) && x.Status == 202:
+			// a cross-repository mount the registry declined (it opened a session instead): this blob may be transferred
+			q, _ := url.ParseQuery(x.RawQuery)
+			if q.Get("from") != "" {
+				declined[q.Get("mount")] = true
 			}
 		case x.Class == "manifest-put" && x.Status == 201:
 			manifestPuts++
@@ -155,20 +165,22 @@ func check(c Case, ev *evid.Collector) *evid.Violation {
 	}
 	// (c) same registry and mount granted: mount instead of transfer
 	if mountPairing {
+		// a blob may only be transferred when the registry declined a mount request for that very blob
+		// (the registry grants every mount but the first MountRefuseFirst requests)
 		for d := range srcGets {
-			if isBlob(d) {
-				return evid.V("mount-granted-but-downloaded", "same registry with mount granted, but blob %s was downloaded from the source", d)
+			if isBlob(d) && !declined[d] {
+				return evid.V("mount-granted-but-downloaded", "same registry with mount granted, but blob %s was downloaded from the source (no mount request for it was declined; the registry declines the first %d mount requests)", d, c.SrcFeat.MountRefuseFirst)
 			}
 		}
 		for id, n := range uploadBytes {
-			if n > 0 {
-				return evid.V("mount-granted-but-uploaded", "same registry with mount granted, but %d bytes were uploaded in session %s (digest %s)", n, id, sessDigest[id])
+			if n > 0 && !declined[sessDigest[id]] {
+				return evid.V("mount-granted-but-uploaded", "same registry with mount granted, but %d bytes were uploaded in session %s (digest %s; no mount request for it was declined; the registry declines the first %d mount requests)", n, id, sessDigest[id], c.SrcFeat.MountRefuseFirst)
 			}
 		}
-		// every blob the target lacked and now has arrived by mount
+		// every blob the target lacked and now has arrived by mount, unless its mount was declined
 		tr := e.Tgt.Host.Repos[e.Tgt.Repo]
 		for d := range g.Blobs {
-			if _, now := tr.Blobs[d]; now && !e.PreHas[d] && !mounted[d] {
+			if _, now := tr.Blobs[d]; now && !e.PreHas[d] && !mounted[d] && !declined[d] {
 				return evid.V("mount-granted-but-not-mounted", "blob %s appeared at the target without a granted mount", d)
 			}
 		}
